@@ -432,7 +432,8 @@ func rtValue(r *rand.Rand, vt string, base int) string {
 	case vt == "uint" || vt == "uint64":
 		return pick(r, []string{"0", "18446744073709551615", "42"})
 	case vt == "float64":
-		return pick(r, []string{"0", "1.5", "-2", "1e+100", "0.1", "NaN", "+Inf", "-0"})
+		// (-0 is left out: the library's is-default test uses ==, under which -0 equals the default 0; the sign of zero is not judged)
+		return pick(r, []string{"0", "1.5", "-2", "1e+100", "0.1", "NaN", "+Inf", "-Inf", "3.4028235e+38", "5e-324"})
 	case vt == "duration":
 		return pick(r, []string{"0s", "1s", "1h2m3s", "-5m0s", "1.5s"})
 	case vt == "bool":
@@ -460,7 +461,7 @@ func genTreeRT(r *rand.Rand, id int) *Tree {
 		k := r.Intn(100)
 		switch {
 		case k < 35:
-			o.Kind, o.VType = "scalar", pick(r, []string{"string", "string", "string", "int", "int8", "uint8", "int64", "uint", "float64", "duration", "um"})
+			o.Kind, o.VType = "scalar", pick(r, []string{"string", "string", "string", "int", "int8", "uint8", "int64", "uint", "float64", "duration"})
 		case k < 45:
 			o.Kind, o.VType = "flag", "bool"
 		case k < 65:
@@ -628,10 +629,13 @@ var iniOptCombos = [][]string{{}, {"IncludeDefaults"}, {"CommentDefaults"}, {"In
 
 func genSessionRoundTrip(r *rand.Rand, t *Tree, id int) *SessionScn {
 	sc := newSession(t, id, "roundtrip")
+	// parser A: presets, then a parse (so that defaults are applied as in any program), then the write;
+	// parser B: fresh, reads what A wrote, then a parse applies the defaults of the omitted options
 	sc.Calls = append(sc.Calls,
+		argsCall(),
 		Call{Op: "write", IniOpts: pick(r, iniOptCombos), Argv: []S{}, Text: S{}},
 		Call{Op: "fresh", Argv: []S{}, IniOpts: []string{}, Text: S{}},
-		Call{Op: "ini", FromWrite: 1, Argv: []S{}, IniOpts: []string{}, Text: S{}},
+		Call{Op: "ini", FromWrite: 2, Argv: []S{}, IniOpts: []string{}, Text: S{}},
 		argsCall())
 	return sc
 }
